@@ -33,8 +33,19 @@ pub struct Hier {
 pub fn tname(i: usize) -> String {
     format!("T{i}")
 }
+/// Name of base field k. The second base field carries a raw identifier: everything derived from a
+/// field name (forwarding bodies, `<field>_<name>` renames, conversion paths) has to cope with it.
 pub fn bname(k: usize) -> String {
-    format!("b{k}")
+    if k == 1 {
+        "r#type".to_string()
+    } else {
+        format!("b{k}")
+    }
+}
+
+/// The field name as it enters composed names (`type_f` for a function `f` reached through `r#type`).
+pub fn bprefix(field: &str) -> &str {
+    field.trim_start_matches("r#")
 }
 
 /// What calling a method ends up doing.
@@ -193,7 +204,7 @@ impl<'a> Model<'a> {
             // `<field>_<name>` when the name is taken; if that is taken too, keep prefixing
             let mut name = c.name.clone();
             while used.contains(&name) {
-                name = format!("{}_{}", c.field, name);
+                name = format!("{}_{}", bprefix(&c.field), name);
             }
             used.insert(name.clone());
             out.push((name, c.effect, true));
@@ -211,7 +222,7 @@ impl<'a> Model<'a> {
         for c in cands {
             let mut name = c.name.clone();
             while used.contains(&name) {
-                name = format!("{}_{}", c.field, name);
+                name = format!("{}_{}", bprefix(&c.field), name);
             }
             used.insert(name);
         }
